@@ -2740,8 +2740,8 @@ var c18EnumProgs = []struct {
 	// Release overlapping Acquire on one manager
 	{"quick", c18EnumProg{name: "A:acq,(rel||acq)|B:acq atomic",
 		ops: [3][]c18EnumOp{{{"acquire", 0}, {"release", 0}, {"acquire", 0}}, {{"acquire", 0}}, nil}, overlap: [3]bool{true, false, false}, atomic: [3]bool{false, true, false}}},
-	{"thorough", c18EnumProg{name: "A:acq,respawn,acq,rel|old A:rel|B:acq atomic|1 expiry",
-		ops: [3][]c18EnumOp{{{"acquire", 0}, {"respawn", 0}, {"acquire", 0}, {"release", 0}}, {{"acquire", 0}}, nil}, old: []c18EnumOp{{"release", 0}}, atomic: [3]bool{false, true, false}, expire: 1}},
+	{"thorough", c18EnumProg{name: "A:acq,respawn,acq|old A:rel|B:acq atomic|1 expiry",
+		ops: [3][]c18EnumOp{{{"acquire", 0}, {"respawn", 0}, {"acquire", 0}}, {{"acquire", 0}}, nil}, old: []c18EnumOp{{"release", 0}}, atomic: [3]bool{false, true, false}, expire: 1}},
 	{"thorough", c18EnumProg{name: "A:acq(r0),acq(r1),respawn,acq(r0)|old A:relall|B:acq(r0) atomic", nres: 2,
 		ops: [3][]c18EnumOp{{{"acquire", 0}, {"acquire", 1}, {"respawn", 0}, {"acquire", 0}}, {{"acquire", 0}}, nil}, old: []c18EnumOp{{"release_all", 0}}, atomic: [3]bool{false, true, false}}},
 	{"thorough", c18EnumProg{name: "A:acq,(rel in flight||respawn),acq|B:acq atomic",
